@@ -14,13 +14,15 @@ every `Type` value is well-formed, C17 `wf_*`).
 non-list `Int`; floats / strings / booleans for non-list `Float` / `String` / `Boolean`; a list for
 a list type when every element conforms to the element type; an enum value conforms to nothing.
 
-What the real code violates: a supplied `FieldValue::Enum` that the traversal of `is_valid_value`
-reaches hits `unimplemented!` (F-14) — the call panics instead of refusing with an
-`ArgumentTypeError`.  So "refused with an error … exactly when …" holds in the form: *accepted* exactly
-when complete, without extras and well-typed (`validate_iff`, no guard needed); *refused with the
-error naming exactly the offending variables* when no supplied value reaches an enum leaf
-(`validate_refused_partial`), and *panic* exactly otherwise (`validate_panics_iff`,
-`valid_panics_iff`).
+History (F-14, repaired): `is_valid_value` used to hit `unimplemented!("enum values are not currently
+supported")` on a `FieldValue::Enum` reached by its traversal, so the call panicked instead of
+refusing with an `ArgumentTypeError`; the refusal half was proved only as `validate_refused_partial`
+(guard: no supplied value reaches an enum leaf), with `validate_panics_iff` / `valid_panics_iff` the
+exact panic condition, `validate_total_partial` (enum-free arguments never panic) and the witness
+`validate_enum_panics`.  The enum arm is `false` now; the statements below are the full ones:
+`validate_refused`, `validate_total`, `validate_accepts_or_refuses` carry no guard, the former panic
+condition `Reaches` is shown to be refused (`valid_reaches_refused`), and the old witnesses are
+regression `example`s that evaluate to the `ArgumentTypeError`.
 -/
 import TrustfallModel.Proofs.Args
 
@@ -31,18 +33,17 @@ section
 variable {N : Type} [DecidableEq N]
 
 /-- Accepted exactly when every variable has a value that `is_valid_value` accepts and every
-supplied name is a variable.  (No side condition: if some check panicked the call is not
-accepted, and `= .ok true` says the check ran to completion.) -/
+supplied name is a variable. -/
 theorem validate_iff (vars : List (N × Ty)) (args : List (N × Value)) :
     validate vars args = .ok (.ok ()) ↔
-      (∀ nt, nt ∈ vars → ∃ x, getArg args nt.1 = some x ∧ isValidValue nt.2 x = .ok true) ∧
+      (∀ nt, nt ∈ vars → ∃ x, getArg args nt.1 = some x ∧ isValidValue nt.2 x = true) ∧
       (∀ kv, kv ∈ args → ∃ t, (kv.1, t) ∈ vars) :=
   validate_ok_iff vars args
 
 /-- `is_valid_value` decides the declarative well-typedness relation (all depths ≤ 30, all base
 names, all values incl. enums — which conform to nothing and are never accepted). -/
 theorem valid_iff_welltyped {t : Ty} (ht : WF t) (v : Value) :
-    isValidValue t v = .ok true ↔ Conforms t.base t.shape v := by
+    isValidValue t v = true ↔ Conforms t.base t.shape v := by
   obtain ⟨s, hd, he⟩ := ht.exists_shape
   rw [he, isValidValue_ofShape, shape_ofShape]
   exact valid_iff_conforms _ s v
@@ -65,62 +66,62 @@ theorem validate_iff_welltyped (vars : List (N × Ty)) (args : List (N × Value)
     obtain ⟨x, hx, hv⟩ := h1 nt hm
     exact ⟨x, hx, (valid_iff_welltyped (hw nt hm) x).mpr hv⟩
 
-/-- The call panics exactly when some *variable's* supplied value makes `is_valid_value` panic
-(values supplied under names that are not variables are never inspected). -/
-theorem validate_panics_iff (vars : List (N × Ty)) (args : List (N × Value)) :
-    validate vars args = .panic ↔
-      ∃ nt, nt ∈ vars ∧ ∃ v, getArg args nt.1 = some v ∧ isValidValue nt.2 v = .panic := by
+/-- The call never panics — for all variable types and all argument values, enum leaves included
+(the `assert!` of `errors.into()` is never reached either).  Full statement; it was
+`validate_total_partial` under the guard "every supplied value is enum-free" before the repair of
+F-14. -/
+theorem validate_total (vars : List (N × Ty)) (args : List (N × Value)) :
+    validate vars args ≠ .panic := by
+  intro h
   have spec := validate_spec vars args
-  constructor
-  · intro h
-    apply Classical.byContradiction
-    intro hnp
-    have hnp' : ¬ SomePanics vars args := hnp
-    by_cases h0 : errorsOf vars args = []
-    · rw [(spec.2 hnp').1 h0] at h; cases h
-    · obtain ⟨e, he, _⟩ := (spec.2 hnp').2 h0
-      rw [he] at h; cases h
-  · exact spec.1
+  by_cases h0 : errorsOf vars args = []
+  · rw [spec.1 h0] at h; cases h
+  · obtain ⟨e, he, _⟩ := spec.2 h0
+    rw [he] at h; cases h
 
-/-- … and `is_valid_value` panics exactly when its traversal reaches an enum leaf: the value is an
-enum, or it is a list checked against a list type whose first not-well-typed element reaches one
-(`Iterator::all` stops at the first `false`; a list against a non-list type is `false` unseen). -/
-theorem valid_panics_iff {t : Ty} (ht : WF t) (v : Value) :
-    isValidValue t v = .panic ↔ Reaches t.base t.shape v := by
+/-- The values on which `is_valid_value` used to panic — its traversal reaches an enum leaf: the
+value is an enum, or it is a list checked against a list type whose first not-well-typed element
+reaches one (the former `valid_panics_iff : isValidValue t v = .panic ↔ Reaches t.base t.shape v`) —
+are now refused: the check answers `false`. -/
+theorem valid_reaches_refused {t : Ty} (ht : WF t) (v : Value) (h : Reaches t.base t.shape v) :
+    isValidValue t v = false := by
   obtain ⟨s, hd, he⟩ := ht.exists_shape
-  rw [he, isValidValue_ofShape, shape_ofShape]
-  exact valid_panic_iff _ s v
+  rw [he, shape_ofShape] at h
+  rw [he, isValidValue_ofShape]
+  exact reaches_not_valid h
 
-/-
-Full statement of the refusal half (FALSE for the code as it is — see `validate_enum_panics`):
-
-  theorem validate_refused (vars args) (hw : ∀ nt ∈ vars, WF nt.2) :
-      errorsOf vars args ≠ [] →
-        ∃ e, validate vars args = .ok (.error e) ∧ e.errors = errorsOf vars args
--/
-
-/-- Refusal, with the error naming exactly the offending variables — provided no supplied value of
-a variable makes the check panic (F-14).  `errorsOf` is: one `ArgumentTypeError(name, type, value)`
+/-- Refusal, with the error naming exactly the offending variables — the full statement, no side
+condition (it was `validate_refused_partial`, guarded by "no supplied value of a variable makes the
+check panic", before the repair of F-14).  `errorsOf` is: one `ArgumentTypeError(name, type, value)`
 per variable whose value is not valid, in variable order; then one `MissingArguments(names)` if any
 variable has no value, names in variable order; then one `UnusedArguments(names)` if any supplied
 name is not a variable, names in argument order (`mem_illTyped`, `mem_missing`, `mem_unused` below
 say exactly which names these are).  A single error is returned as itself, several as
 `MultipleErrors` (`ArgsError.errors` flattens both). -/
-theorem validate_refused_partial (vars : List (N × Ty)) (args : List (N × Value))
-    (hnp : ¬ ∃ nt, nt ∈ vars ∧ ∃ v, getArg args nt.1 = some v ∧ isValidValue nt.2 v = .panic)
+theorem validate_refused (vars : List (N × Ty)) (args : List (N × Value))
     (hne : errorsOf vars args ≠ []) :
     ∃ e, validate vars args = .ok (.error e) ∧ e.errors = errorsOf vars args :=
-  ((validate_spec vars args).2 hnp).2 hne
+  (validate_spec vars args).2 hne
+
+/-- The complete behaviour: the call accepts when the `errors` vector is empty and refuses with
+exactly that vector otherwise; there is no third outcome (was: `validate_panics_iff`, the third
+outcome's exact condition). -/
+theorem validate_accepts_or_refuses (vars : List (N × Ty)) (args : List (N × Value)) :
+    (errorsOf vars args = [] ∧ validate vars args = .ok (.ok ())) ∨
+    (errorsOf vars args ≠ [] ∧
+      ∃ e, validate vars args = .ok (.error e) ∧ e.errors = errorsOf vars args) := by
+  by_cases h0 : errorsOf vars args = []
+  · exact Or.inl ⟨h0, (validate_spec vars args).1 h0⟩
+  · exact Or.inr ⟨h0, (validate_spec vars args).2 h0⟩
 
 /-- Conversely every refusal carries exactly `errorsOf` (and it is non-empty). -/
 theorem validate_names (vars : List (N × Ty)) (args : List (N × Value)) {e : ArgsError N}
     (h : validate vars args = .ok (.error e)) :
     e.errors = errorsOf vars args ∧ errorsOf vars args ≠ [] := by
   have spec := validate_spec vars args
-  have hnp : ¬ SomePanics vars args := fun hp => by rw [spec.1 hp] at h; cases h
   by_cases h0 : errorsOf vars args = []
-  · rw [(spec.2 hnp).1 h0] at h; cases h
-  · obtain ⟨e', he', hee⟩ := (spec.2 hnp).2 h0
+  · rw [spec.1 h0] at h; cases h
+  · obtain ⟨e', he', hee⟩ := spec.2 h0
     rw [he'] at h
     cases h
     exact ⟨hee, h0⟩
@@ -129,7 +130,7 @@ theorem validate_names (vars : List (N × Ty)) (args : List (N × Value)) {e : A
 not valid; the error carries the name, the type and the value. -/
 theorem names_illTyped {vars : List (N × Ty)} {args : List (N × Value)} {e : ArgErr N} :
     e ∈ illTyped vars args ↔ ∃ nt, nt ∈ vars ∧ ∃ v, getArg args nt.1 = some v ∧
-      isValidValue nt.2 v = .ok false ∧ e = .argumentTypeError nt.1 nt.2 v := mem_illTyped
+      isValidValue nt.2 v = false ∧ e = .argumentTypeError nt.1 nt.2 v := mem_illTyped
 
 /-- Which names `MissingArguments` lists: the variables without a supplied value. -/
 theorem names_missing {vars : List (N × Ty)} {args : List (N × Value)} {n : N} :
@@ -139,41 +140,28 @@ theorem names_missing {vars : List (N × Ty)} {args : List (N × Value)} {n : N}
 theorem names_unused {vars : List (N × Ty)} {args : List (N × Value)} {k : N} :
     k ∈ unusedArguments vars args ↔ (∃ v, (k, v) ∈ args) ∧ ¬ ∃ t, (k, t) ∈ vars := mem_unused
 
-/-- No enum leaf anywhere in the supplied values ⇒ the call never panics: it accepts or refuses. -/
-theorem validate_total_partial (vars : List (N × Ty)) (args : List (N × Value))
-    (hw : ∀ nt, nt ∈ vars → WF nt.2) (hv : ∀ kv, kv ∈ args → kv.2.enumFree = true) :
-    validate vars args ≠ .panic := by
-  intro h
-  obtain ⟨nt, hm, v, hg, hp⟩ := (validate_panics_iff vars args).mp h
-  have hvm : ∃ k, (k, v) ∈ args := by
-    unfold getArg at hg
-    cases hf : args.find? (fun kv => kv.1 == nt.1) with
-    | none => simp [hf] at hg
-    | some kv =>
-      simp [hf] at hg
-      subst hg
-      exact ⟨kv.1, List.mem_of_find?_eq_some hf⟩
-  obtain ⟨k, hk⟩ := hvm
-  obtain ⟨r, hr⟩ := C17.valid_total (hw nt hm) v (hv (k, v) hk)
-  rw [hr] at hp; cases hp
-
 end
 
-/-- F-14 witness: variable `0 : Int`, argument `0 ↦ Enum "a"` — the call panics. -/
-theorem validate_enum_panics :
-    validate [((0 : Nat), Ty.ofShape INT (.named true))] [(0, .enum [97])] = .panic := by
-  rfl
+/-- Regression for F-14 (was the witness theorem `validate_enum_panics … = .panic`): variable
+`0 : Int`, argument `0 ↦ Enum "a"` — the call refuses with the single `ArgumentTypeError`. -/
+example : validate [((0 : Nat), Ty.ofShape INT (.named true))] [(0, .enum [97])]
+    = .ok (.error (.single (.argumentTypeError 0 (Ty.ofShape INT (.named true)) (.enum [97])))) := rfl
 
-/-- The enum is only a problem where the traversal reaches it: under a name that is not a
-variable it is reported as unused; behind a `null` in a `[Int!]` the type error comes first. -/
-theorem validate_enum_not_reached :
+/-- Regression (was `validate_enum_not_reached`, whose third clause was `= .panic`): an enum under
+a name that is not a variable is reported as unused; behind a `null` in a `[Int!]` the list is
+ill-typed; and behind a `null` in a `[Int]` — where the traversal reaches it — it is an
+`ArgumentTypeError` too. -/
+example :
     (∃ e, validate [((0 : Nat), Ty.ofShape INT (.named true))] [(0, .int64 1), (1, .enum [97])]
         = .ok (.error e) ∧ e.errors.length = 1) ∧
     (∃ e, validate [((0 : Nat), Ty.ofShape INT (.list true (.named false)))]
         [(0, .list [.null, .enum [97]])] = .ok (.error e) ∧ e.errors.length = 1) ∧
     validate [((0 : Nat), Ty.ofShape INT (.list true (.named true)))]
-        [(0, .list [.null, .enum [97]])] = .panic := by
+        [(0, .list [.null, .enum [97]])] = .ok (.error (.single (.argumentTypeError 0
+          (Ty.ofShape INT (.list true (.named true))) (.list [.null, .enum [97]])))) := by
   refine ⟨⟨_, rfl, rfl⟩, ⟨_, rfl, rfl⟩, rfl⟩
+example : Reaches INT (.list true (.named true)) (.list ([.null] ++ .enum [97] :: [])) :=
+  Reaches.list (by intro p hp; simp at hp; subst hp; exact Conforms.null rfl) Reaches.enum
 
 /-! ### The type the query implies for a variable -/
 
@@ -181,7 +169,7 @@ theorem validate_enum_not_reached :
 accepts exactly the values every use accepts: it is the greatest lower bound of the use types. -/
 theorem inferred_type_glb {uses : List Ty} (hu : ∀ u, u ∈ uses → WF u) {t : Ty}
     (h : inferType uses = .ok (some t)) (x : Value) :
-    isValidValue t x = .ok true ↔ ∀ u, u ∈ uses → isValidValue u x = .ok true := by
+    isValidValue t x = true ↔ ∀ u, u ∈ uses → isValidValue u x = true := by
   cases uses with
   | nil => simp [inferType] at h
   | cons first rest =>
@@ -250,15 +238,13 @@ end TF.C12
 #print axioms TF.C12.validate_iff
 #print axioms TF.C12.valid_iff_welltyped
 #print axioms TF.C12.validate_iff_welltyped
-#print axioms TF.C12.validate_panics_iff
-#print axioms TF.C12.valid_panics_iff
-#print axioms TF.C12.validate_refused_partial
+#print axioms TF.C12.validate_total
+#print axioms TF.C12.valid_reaches_refused
+#print axioms TF.C12.validate_refused
+#print axioms TF.C12.validate_accepts_or_refuses
 #print axioms TF.C12.validate_names
 #print axioms TF.C12.names_illTyped
 #print axioms TF.C12.names_missing
 #print axioms TF.C12.names_unused
-#print axioms TF.C12.validate_total_partial
-#print axioms TF.C12.validate_enum_panics
-#print axioms TF.C12.validate_enum_not_reached
 #print axioms TF.C12.inferred_type_glb
 #print axioms TF.C12.inferred_type_none_iff
